@@ -4,26 +4,49 @@ func init() {
 	register(&PropDef{
 		ID:    "C16",
 		Title: "Ending a session by any path releases everything it held",
-		Pkgs:  []string{"./pkg/dhcp", "./pkg/ebpf"},
+		Pkgs:  []string{"./pkg/dhcp", "./pkg/ebpf", "./pkg/pppoe", "./pkg/subscriber"},
 		Funcs: []string{
+			// DHCPv4
 			"dhcp.Server.releaseLease", "dhcp.Server.handleRelease", "dhcp.Server.handleDecline", "dhcp.Server.cleanupExpiredLeases",
 			"dhcp.Pool.Release", "dhcp.Pool.MarkUnavailable", "dhcp.PoolManager.GetPool",
 			"ebpf.Loader.HasVLANSupport", "ebpf.Loader.HasCircuitIDSubscriberSupport",
+			// PPPoE teardown component (teardown.go)
+			"pppoe.SessionTeardown.cleanup", "pppoe.SessionTeardown.sendAccountingStop", "pppoe.SessionTeardown.gatherStats",
+			"pppoe.SessionTeardown.HandleClientPADT", "pppoe.SessionTeardown.TerminateSession", "pppoe.SessionTeardown.waitForLCPTermAck",
+			"pppoe.SessionTeardown.TerminateByID", "pppoe.SessionTeardown.TerminateByMAC", "pppoe.SessionTeardown.TerminateByUsername",
+			"pppoe.SessionTeardown.TerminateAll",
+			"pppoe.SessionManager.detach", "pppoe.Session.Duration",
+			// PPPoE server (server.go): PADT, LCP Terminate-Request, authentication failure, idle timeout (frame), shutdown
+			"pppoe.Server.handlePADT", "pppoe.Server.handleLCPTermRequest", "pppoe.Server.handlePAP", "pppoe.Server.endSession",
+			"pppoe.Server.expireSessions", "pppoe.Server.Stop", "pppoe.Server.handleIPCPConfigAck",
+			// subscriber.Manager: administrative / RADIUS disconnect, session and idle timeout
+			"subscriber.Manager.TerminateSession", "subscriber.Manager.cleanupExpiredSessions", "subscriber.Manager.emitEvent",
+			"subscriber.Manager.CreateSession", "subscriber.NewManager",
 		},
 		Trusted: []string{
 			"ebpf.Loader.RemoveSubscriber / RemoveVLANSubscriber / RemoveCircuitIDSubscriber / RemoveCircuitIDMapping, qos.Manager.RemoveSubscriberQoS: trusted frames (write kernel maps / their own tables only); each call is observed by the caller through a ghost counter",
-			"nat.Manager.DeallocateNAT: frame verified under C10's contracts; radius.Client.SendAccounting: contract verified under C08",
+			"nat.Manager.DeallocateNAT: frame verified under C10's contracts; radius.Client.SendAccounting: contract verified under C08 (ghost counters acctStops / acctStarts)",
+			"pppoe.SessionManager.GetAllSessions: trusted read-only snapshot (frame, non-nil elements); the body is not verified because the engine cannot re-establish the quantified byte-content lock invariant SessionManager.rev across the allocation of the result slice",
+			"pppoe callbacks SessionTeardown.updateEBPFMaps / sendPADT / sendLCPTermReq, interface IPPoolAllocator.Release, subscriber.AddressAllocator.ReleaseIPv4/ReleaseIPv6 and subscriber.EventHandler: assumed frames (modify nothing the caller can see); each call is observed through a ghost counter",
+			"pppoe.IPPool.Release, SessionManager.RemoveSession / GetSession / GetSessionByMAC / CleanupExpired, Session.SetState / GetState, Server.sendPPPPacket / startIPCPNegotiation, radius.Client.Authenticate: called through their contracts, which are verified under C01/C05, C20 and C04",
 		},
 		Undecided: []string{
-			"PPPoE termination paths (handlePADT, LCP terminate, auth failure, SessionTeardown.cleanup, SessionManager.CleanupExpired) and subscriber.Manager / RADIUS Disconnect paths are not under contract in this run",
-			"'exactly one Accounting-Stop': the Stop is sent by a goroutine spawned by releaseLease; the goroutine body is executed inline at the spawn point (it is assumed to run to completion), delivery/retry is C08",
-			"that the kernel maps no longer answer for the lease after the Remove* calls (kernel side, C03)",
-			"two termination paths racing for the same lease: decided through the monitor model only (the lease is removed from the table under leasesMu before releaseLease runs, so a second path finds no lease and releases nothing)",
+			"'exactly one Accounting-Stop' (DHCPv4): the Stop is sent by a goroutine spawned by releaseLease; the goroutine body is executed inline at the spawn point (it is assumed to run to completion), delivery/retry is C08",
+			"that the kernel maps no longer answer for the lease / session after the Remove* calls (kernel side, C03); for PPPoE the fast-path entry is behind the updateEBPFMaps callback: that it is invoked exactly once with remove=true is decided, what it does (and that cleanup continues when it returns an error) is not",
+			"two termination paths racing for the same session: decided through the monitor model only (DHCPv4: the lease is removed under leasesMu before releaseLease runs; PPPoE teardown component: SessionManager.detach decides under the table lock who tears down; subscriber.Manager: the session leaves the table in the critical section that found it)",
+			"PPPoE server paths (handlePADT, handleLCPTermRequest, endSession) look the session up and remove it in separate critical sections; they are serialised by the single receive goroutine and the address release is keyed by the session's unique Acct-Session-Id (a second release is a no-op by IPPool.Release's contract), so a repeated end releases nothing twice; this argument is not an obligation",
+			"PPPoE idle timeout (Server.expireSessions): frame and 'no accounting record' only; that the address of every expired session is released is confirmed by replay under C01/C05, the count is not decided (snapshot / CleanupExpired / GetSession are three critical sections)",
+			"PPPoE dead-peer detection (KeepAliveManager.terminateSession callback) and LCP/IPCP automaton callbacks: the callbacks are supplied by the embedding code, which does not exist in this repository; not under contract",
+			"SessionTeardown used without a session table (SetSessionManager never called): there is no table to decide who tears down, a repeated termination is not detected (wasLive stays -1 and everything is released again)",
+			"subscriber.Manager.AssignAddress racing with TerminateSession (an address allocated for a session that was ended meanwhile is never released) and sessions whose NAT / QoS / accounting are released by EventSessionTerminate handlers registered by the embedding code: not under contract; that exactly one terminate event is emitted per ended session is decided",
+			"shutdown of the DHCPv4 server and of subscriber.Manager (Stop cancels the loops, sessions are not ended) is not a termination path in the code and is not claimed",
 		},
 		Assumptions: []string{
 			"go func(){...}() closures are executed inline at the spawn point (mode goinline)",
-			"Server.leasesMu owns leases, leasesByCircuitIDMu owns leasesByCircuitID; Pool.mu and PoolManager.poolsMu own their tables (monitor model)",
+			"Server.leasesMu owns leases, leasesByCircuitIDMu owns leasesByCircuitID; Pool.mu and PoolManager.poolsMu own their tables; pppoe.SessionManager.mu owns sessions / macToSession / nextID, pppoe.Session.mu owns State / EstablishedAt / LastActivity / LCPIdentifier, SessionTeardown.mu owns nothing (it serialises teardowns); subscriber.Manager.mu owns sessions / byMAC / byIP / stats (monitor model)",
+			"pkg/pppoe allocates no NAT block and installs no QoS policy (it imports neither pkg/nat nor pkg/qos): a PPPoE session holds its table / MAC-index entry, its pool address, its fast-path entry (teardown component only) and its accounting session",
+			"Session.AcctStarted is true iff an Accounting-Start was issued for the session; nothing in pkg/pppoe issues one (Server: acctStarts == 0 is an obligation of handlePAP / handleIPCPConfigAck), so the flag is only ever set by embedding code",
 		},
-		Explanation: "Every release operation increments a ghost counter in its caller through the 'sets' clause of its contract. releaseLease (the single DHCPv4 teardown path after the repair) ensures: the address went back to its pool exactly once when the pool exists (and is quarantined for DECLINE), NAT and QoS were removed exactly once when configured, exactly one Accounting-Stop was issued iff a RADIUS session had been started, and the MAC, VLAN-pair and circuit-id fast-path entries were removed when the corresponding cache exists. handleRelease / handleDecline ensure that releaseLease ran exactly once if the client had a lease under leasesMu and not at all otherwise (ending twice has no further effect); cleanupExpiredLeases ensures one teardown per lease it removed.",
+		Explanation: "Every release operation increments a ghost counter in its caller through the 'sets' clause of its contract. DHCPv4: releaseLease (the single teardown path) ensures the address went back to its pool exactly once (quarantined for DECLINE), NAT and QoS were removed exactly once when configured, exactly one Accounting-Stop was issued iff a RADIUS session had been started, and the MAC, VLAN-pair and circuit-id fast-path entries were removed when the corresponding cache exists; handleRelease / handleDecline / cleanupExpiredLeases ensure that releaseLease ran exactly once per lease removed under leasesMu and not at all otherwise. PPPoE teardown component: SessionTeardown.cleanup is the single teardown; it first takes the session out of the table (SessionManager.detach, which reports whether this call removed it) and only then releases: pool address once iff the session holds one, fast-path callback once, Accounting-Stop once iff an Accounting-Start was issued (Session.AcctStarted), nothing at all when the session had already left the table (ending twice / by two paths has no further effect). HandleClientPADT, TerminateSession, TerminateByID/MAC/Username/All call cleanup exactly once per session they end and release nothing themselves. PPPoE server: PADT, LCP Terminate-Request, authentication failure (handlePAP -> endSession) and shutdown (Stop -> endSession for every session of the snapshot) remove the session from the table and release its address exactly once; the server issues neither Accounting-Start nor Stop. subscriber.Manager.TerminateSession (operator / RADIUS disconnect / timeout sweep): a session found under the lock leaves the table and its indexes in that critical section, its IPv4 / IPv6 addresses are released once each iff held, one terminate event is emitted; a session that is not in the table releases nothing.",
 	})
 }
